@@ -23,7 +23,14 @@ Record group := { g_base : case;                       (* evaluated by the model
 Definition vcase := list group.
 Definition vobs := list (list obs).
 
+(* a group whose pushed list is [99] marks the "two prefixes for one namespace"
+   spelling (finding F-C15-2): rdflib's Prologue.bind keeps one prefix per
+   namespace, the query does not parse; it carries no other meaning *)
+Definition dup_prefix_group (g : group) : bool :=
+  match g_pushed g with [99] => true | _ => false end.
+
 Definition group_model (g : group) : list obs :=
+  if dup_prefix_group g then [model_obs (g_base g); RErr] else
   model_obs (g_base g)
   :: map (fun cv => ren_obs (snd cv) (model_obs (fst cv))) (g_vars g)
   ++ repeat (model_obs (g_base g)) (N.to_nat (g_same g)).
@@ -54,4 +61,6 @@ Definition kf_case (pushed : list var) (c : case) : N :=
 Definition kf_group (g : group) : bool :=
   negb (N.eqb (kf_case (g_pushed g) (g_base g)) 0)
   || existsb (fun cv => negb (N.eqb (kf_case (g_pushed g) (fst cv)) 0)) (g_vars g).
-Definition kf15 (c : vcase) : N := if existsb kf_group c then 1 else 0.
+Definition kf15 (c : vcase) : N :=
+  if existsb dup_prefix_group c then 2
+  else if existsb kf_group c then 1 else 0.
